@@ -79,4 +79,40 @@ theorem C06_path : statement_path := Cspuz.Proofs.C06.path_exact
 theorem C06_path_aux_unimplemented (g : Graph) (ie : List Expr) (base : Nat) :
     singlePath g ie false base = .error .runtimeError := Cspuz.Proofs.C06.path_aux_unimplemented g ie base
 
+/-- Non-vacuity: for the triangle with all three edge flags true, every hypothesis of `statement_cycle`
+holds, the generator succeeds, the specification's right-hand side holds, and hence (by the theorem)
+the emitted constraints are realizable. -/
+example : ∃ (g : Graph) (ie : List Expr) (base : Nat) (p : Prog) (ids : List Expr) (σ : Asg),
+    g.wf = true ∧ LoopFree g ∧ ie.length = g.edges.length ∧ BoolArgs base ie ∧
+    singleCycle g ie false base = .ok (p, ids) ∧ SingleCycle g (truthAt σ ie) ∧
+    Realizable base p σ := by
+  let g : Graph := { n := 3, edges := [(0, 1), (1, 2), (2, 0)] }
+  let ie : List Expr := [.bvar 0, .bvar 1, .bvar 2]
+  let σ : Asg := ⟨fun _ => true, fun _ => 0⟩
+  have hwf : g.wf = true := by decide
+  have hlf : LoopFree g := by
+    intro e he
+    simp only [g, List.mem_cons, List.not_mem_nil, or_false] at he
+    rcases he with rfl | rfl | rfl <;> decide
+  have hlen : ie.length = g.edges.length := rfl
+  have hie : BoolArgs 3 ie := by
+    intro e he
+    simp only [ie, List.mem_cons, List.not_mem_nil, or_false] at he
+    rcases he with rfl | rfl | rfl <;> simp [wtB, Expr.varsBelow]
+  have hok := Cspuz.Proofs.C06L1.cyc_eq_prog (g := g) (ie := ie) (base := 3) (by decide) hwf hlen hie
+  have hsc : SingleCycle g (truthAt σ ie) := by
+    right
+    refine ⟨[0, 1, 2], [0, 1, 2], by decide, by decide, rfl, by decide, ?_, ?_⟩
+    · intro k hk
+      have : k = 0 ∨ k = 1 ∨ k = 2 := by simp at hk; omega
+      rcases this with rfl | rfl | rfl
+      · exact ⟨0, 0, 1, rfl, rfl, rfl, Or.inl rfl⟩
+      · exact ⟨1, 1, 2, rfl, rfl, rfl, Or.inl rfl⟩
+      · exact ⟨2, 2, 0, rfl, rfl, rfl, Or.inl rfl⟩
+    · intro e he
+      have : e = 0 ∨ e = 1 ∨ e = 2 := by simp [g] at he; omega
+      rcases this with rfl | rfl | rfl <;> simp [truthAt, ie, σ, Cspuz.Proofs.eval_bvar]
+  exact ⟨g, ie, 3, _, _, σ, hwf, hlf, hlen, hie, hok, hsc,
+    ((C06_cycle_aux g ie 3 _ _ σ hwf hlf hlen hie hok).2.1).2 hsc⟩
+
 end Cspuz.C06
